@@ -58,6 +58,37 @@ def js_round(x: float, ndigits: int = 0) -> float:
             return math.ceil(x * multiplier - 0.5) / multiplier
 
 
+def js_pow(base, exponent) -> float:
+    """Number::exponentiate on IEEE doubles (never host big-integer arithmetic)."""
+    try:
+        base = float(base)
+        exponent = float(exponent)
+    except OverflowError:
+        return float("nan")
+    if math.isnan(exponent):
+        return float("nan")
+    if exponent == 0:
+        return 1.0
+    if math.isnan(base):
+        return float("nan")
+    if abs(base) == 1 and math.isinf(exponent):
+        return float("nan")
+    odd = (
+        not math.isinf(exponent)
+        and exponent == math.floor(exponent)
+        and math.fmod(exponent, 2) != 0
+    )
+    if base == 0 and exponent < 0:
+        negative = math.copysign(1, base) < 0 and odd
+        return float("-inf") if negative else float("inf")
+    try:
+        return math.pow(base, exponent)
+    except OverflowError:
+        return float("-inf") if (base < 0 and odd) else float("inf")
+    except ValueError:
+        return float("nan")
+
+
 @dataclass
 class ClosureCell:
     """A cell for closure variable - allows sharing between scopes."""
@@ -461,7 +492,7 @@ class VM:
         elif op == OpCode.POW:
             b = self.stack.pop()
             a = self.stack.pop()
-            self.stack.append(to_number(a) ** to_number(b))
+            self.stack.append(js_pow(to_number(a), to_number(b)))
 
         elif op == OpCode.NEG:
             a = self.stack.pop()
